@@ -73,8 +73,14 @@ func (p *ECPoint) UnmarshalJSON(b []byte) error {
 	if err := json.Unmarshal(b, &aux); err != nil {
 		return err
 	}
-	p.X = aux.X.Int
-	p.Y = aux.Y.Int
+	// Either member may be absent or null: MarshalJSON itself omits y for x25519.
+	p.X, p.Y = nil, nil
+	if aux.X != nil {
+		p.X = aux.X.Int
+	}
+	if aux.Y != nil {
+		p.Y = aux.Y.Int
+	}
 	return nil
 }
 
